@@ -43,7 +43,7 @@ def run(ck, fx, cg, tier):
     if not ck.anchor("R12", "compile_into templates", T):
         return
     ck.fn(A.get("compile_into"))
-    _block(ck, T)
+    _block(ck, T, fx)
     _decisions(ck, T)
     _component(ck, fx)
     _fn(ck, T)
@@ -56,7 +56,7 @@ def run(ck, fx, cg, tier):
 
 # --------------------------------------------------------------------------- R12.block
 
-def _block(ck, T):
+def _block(ck, T, fx):
     n = 0
     for (variant, keep), (ex, paths, err) in sorted(T.items()):
         for p in paths:
@@ -80,6 +80,10 @@ def _block(ck, T):
             ok = kinds == ["env_enter", "foreach", "env_leave"] and envs == {want_env} and len(scope_ops) == 2
             ck.ob("R12.block", key, ok, scope_ops[0].at if scope_ops else "",
                   "sequence %s on %s; expected enter → children → leave on %s" % (kinds, sorted(fmt_term(e) for e in envs), fmt_term(want_env)))
+    # `begin .. end` reaches the compiler as a Block node (and the program as Top): the parser's constructors are plain
+    from . import shared as _sh
+    for cname, okc, whyc in _sh.ast_constructors(fx, only={"block", "top", "function", "object"}):
+        ck.ob("R12.block", "parser|AST::%s" % cname, okc, "src/parser/mod.rs", whyc)
     ck.floor("R12.block", "arm paths examined", n, 40)
 
 
